@@ -1060,9 +1060,10 @@ theorem fok_rNewConn {s : St} (h : FOk [] s) {id : Id} (hx : id ∉ s.created) :
   exact ⟨qok_sub hq (core_addConn hq.core _ hx) (nd_addConn hq.nd _ _) (List.Sublist.refl _), hnf⟩
 
 /-- cluster construction / destruction touches neither the queue nor obstacles, connectors, pins -/
-theorem fok_addCluster {s : St} (h : FOk [] s) {id : Id} (hx : id ∉ s.created) : FOk [] (s.addCluster id) := by
+theorem fok_addCluster {s : St} (h : FOk [] s) {id : Id} (hx : id ∉ s.created) (refs : List Id := []) :
+    FOk [] (s.addCluster id refs) := by
   obtain ⟨hq, hnf⟩ := h
-  exact ⟨qok_sub hq (core_addCluster hq.core hx) (nd_clusters hq.nd rfl rfl rfl) (List.Sublist.refl _), hnf⟩
+  exact ⟨qok_sub hq (core_addCluster hq.core hx refs) (nd_clusters hq.nd rfl rfl rfl) (List.Sublist.refl _), hnf⟩
 
 theorem fok_freeCluster {s : St} (h : FOk [] s) {id : Id} (hk : s.hasCluster id = true) :
     FOk [] (s.freeCluster id) := by
@@ -1130,11 +1131,11 @@ theorem fok_step {s : St} (h : FOk [] s) (op : Op) (hl : Legal s op = true) : FO
   | deleteShape id =>
     simp only [Legal, LegalDoc, Bool.and_eq_true, Bool.not_eq_true'] at hl
     unfold step; rw [if_neg (by simp [hal])]
-    exact fok_deleteObstacleOp h id false hl.1.2.1 hl.1.2.2 hl.2.1 hl.2.2
+    exact fok_deleteObstacleOp h id false hl.1.2.1 hl.1.2.2 hl.2.1.1 hl.2.1.2
   | deleteJunction id =>
     simp only [Legal, LegalDoc, Bool.and_eq_true, Bool.not_eq_true'] at hl
     unfold step; rw [if_neg (by simp [hal])]
-    exact fok_deleteObstacleOp h id true hl.1.2.1 hl.1.2.2 hl.2.1 hl.2.2
+    exact fok_deleteObstacleOp h id true hl.1.2.1 hl.1.2.2 hl.2.1.1 hl.2.1.2
   | deleteConn id =>
     simp only [Legal, LegalDoc, Bool.and_eq_true, Bool.and_true] at hl
     unfold step; rw [if_neg (by simp [hal])]
@@ -1186,8 +1187,8 @@ theorem fok_step {s : St} (h : FOk [] s) (op : Op) (hl : Legal s op = true) : FO
     simp only [Legal, LegalDoc, Bool.and_eq_true, Bool.and_true, List.isEmpty_iff] at hl
     unfold step; rw [if_neg (by simp [hal])]
     dsimp only
-    rw [if_neg (by simp [hl.2.1])]
-    exact fok_rDelJunction h hl.2.1 hl.2.2
+    rw [if_neg (by simp [hl.2.1.1])]
+    exact fok_rDelJunction h hl.2.1.1 hl.2.1.2
   | rNewJunction id pin =>
     simp only [Legal, LegalDoc, Bool.and_eq_true, Bool.and_true] at hl
     unfold step; rw [if_neg (by simp [hal])]
@@ -1196,22 +1197,23 @@ theorem fok_step {s : St} (h : FOk [] s) (op : Op) (hl : Legal s op = true) : FO
     simp only [Legal, LegalDoc, Bool.and_eq_true, Bool.and_true] at hl
     unfold step; rw [if_neg (by simp [hal])]
     exact fok_rNewConn h (fresh_of_contains hl.2.1)
-  | newCluster id =>
+  | newCluster id refs =>
     simp only [Legal, LegalDoc, Bool.and_eq_true, Bool.and_true] at hl
     unfold step; rw [if_neg (by simp [hal])]
-    exact fok_addCluster h (fresh_of_contains hl.2)
+    exact fok_addCluster h (fresh_of_contains hl.2.1) refs
   | deleteCluster id =>
     simp only [Legal, LegalDoc, Bool.and_eq_true, Bool.and_true] at hl
     unfold step; rw [if_neg (by simp [hal])]
     dsimp only
     rw [if_neg (by simp [hl.2])]
     exact fok_freeCluster h hl.2
-  | setClusterPoly id =>
+  | setClusterPoly id refs =>
     simp only [Legal, LegalDoc, Bool.and_eq_true, Bool.and_true] at hl
     unfold step; rw [if_neg (by simp [hal])]
     dsimp only
-    rw [if_neg (by simp [hl.2])]
-    exact h
+    rw [if_neg (by simp [hl.2.1])]
+    obtain ⟨hq, hnf⟩ := h
+    exact ⟨qok_sub hq (core_setClusterRefs hq.core _ _) (nd_clusters hq.nd rfl rfl rfl) (List.Sublist.refl _), hnf⟩
   | touchConn c =>
     simp only [Legal, LegalDoc, Bool.and_eq_true, Bool.and_true] at hl
     unfold step; rw [if_neg (by simp [hal])]
